@@ -324,7 +324,7 @@ def run(ctx):
     jobs += [random_job(rng, ctx.quick) for _ in range(400 if ctx.quick else 8000)]
     rng2 = random.Random(ctx.seed * 7919 + 19)
     jobs += [equal_groups_job(rng2, ctx.quick) for _ in range(120 if ctx.quick else 1500)]
-    recs = pool.run_jobs(__name__, jobs, limit=60.0)
+    recs = pool.run_jobs(__name__, jobs, limit=60.0, strict_fp=True)
     if os.environ.get("VERIF_C19_PARALLEL"):
         # side check of bct/nbs_parallel.py (own process pool: run in-line, not in pool workers)
         pj = []
